@@ -17,7 +17,7 @@ out = dict(property=name[:3], breaks=meta.get('summary', ''), needs=meta.get('ne
            files=meta.get('files', []), origin='independent sub-agent given only the property text',
            confirmed_by_me='scratch worktree of /repo HEAD + pristine build: ' + conf,
            ran=['tools/confirm_seed.sh (demo on clean tree: exit 0; pinned 55 tests with patch: all pass; demo with patch: exit 1)',
-                'tools/try_seed.sh %s %s (git -C /repo apply; bin/check; git checkout -- .)' % (src, name[:3])],
+                'tools/try_seed.sh %s %s (patch applied to a scratch copy of /repo HEAD, bin/check run against it via VERIF_REPO, copy removed; the first-wave seeds were tried with git -C /repo apply ... git checkout -- . instead)' % (src, name[:3])],
            detected_by_check=det, detection_note=note)
 json.dump(out, open(os.path.join(dst, 'meta.json'), 'w'), indent=1)
 print('kept', dst)
